@@ -8,7 +8,7 @@ import re
 from ..cfg import build_cfg, calls_in, node_calls
 from ..core import Ctx, property_info, rule, share
 from ..model import AnalysisError, FuncInfo, const_str, walk_no_nested
-from ..q import Dispatch, L, dict_literals, flow_conditions, flows, A, asrc, enum_members, is_self_attr, kwarg, stores, unparse
+from ..q import Dispatch, L, call_name_of, dep_texts, dict_literals, flow_conditions, flows, A, asrc, enum_members, is_self_attr, kwarg, stores, unparse
 from .c12 import renumbering_is_last
 
 FIL = "xsdata.formats.dataclass.filters:Filters"
@@ -201,15 +201,31 @@ def pipeline_typestate(ctx: Ctx) -> None:
     finds = sum(1 for fi in ctx.repo.funcs_in("xsdata.codegen.handlers", "xsdata.codegen.mixins") for c in calls_in(fi.node)
                 if isinstance(c.func, ast.Attribute) and c.func.attr in ("find", "find_inner") and unparse(c.func.value).endswith("container"))
     ctx.ob(f"handlers look classes up through container.find / find_inner ({finds} sites)", finds >= 6, at=ctx.repo.func("xsdata.codegen.container:ClassContainer.find"), construct="find sites", msg="lookup discipline vanished")
+    behind = ("_.status<self.step", "self.step>_.status")
     cf = ctx.repo.func("xsdata.codegen.container:ClassContainer.find")
-    ctx.ob("container.find processes a dependency whose status is behind the current step before returning it", A("if_.status<self.step:;self.process_class(_,self.step);returnself.find(_,_)") in asrc(cf), at=cf, construct="find processes",
+    g = build_cfg(cf.node)
+    pcs = [n for n in g.stmts() if any(call_name_of(c) == "process_class" for c in node_calls(n))]
+    again = [n for n in g.stmts() if any(unparse(c.func) == "self.find" for c in node_calls(n))]
+    ok = bool(pcs) and all(dep_texts(cf, n, True) & set(behind) for n in pcs) and any(a.id in g.reachable([p.id]) for a in again for p in pcs)
+    ctx.ob("container.find processes a dependency whose status is behind the current step before returning it (and looks it up again)", ok, at=cf, construct="find processes",
            msg="find returns unprocessed classes")
     ci = ctx.repo.func("xsdata.codegen.container:ClassContainer.find_inner")
-    ctx.ob("container.find_inner does the same for inner classes", A("if_.status<self.step:;self.process_class(_,self.step)") in asrc(ci), at=ci, construct="find_inner processes", msg="inner classes returned unprocessed")
+    g = build_cfg(ci.node)
+    pcs = [n for n in g.stmts() if any(call_name_of(c) == "process_class" for c in node_calls(n))]
+    ctx.ob("container.find_inner does the same for inner classes", bool(pcs) and all(dep_texts(ci, n, True) & set(behind) for n in pcs), at=ci, construct="find_inner processes", msg="inner classes returned unprocessed")
     pc = ctx.repo.func("xsdata.codegen.container:ClassContainer.process_class")
-    a = asrc(pc)
-    ctx.ob("process_class marks the class in-progress, runs the step's processors, recurses into inner classes, then marks it done", A("_.status=Status(_)") in a and A("for_inself.processors.get(_,[]):") in a
-           and A("for_in_.inner:;if_.status<_:;self.process_class(_,_)") in a and A("_.status=Status(_+1)") in a, at=pc, construct="process_class", msg="status protocol changed")
+    g = build_cfg(pc.node)
+    status_stores = [(g.node_of(st), A(unparse(v))) for st, tgt, v in stores(pc.node) if isinstance(tgt, ast.Attribute) and tgt.attr == "status" and v is not None]
+    start = [n for n, v in status_stores if n is not None and v == A("Status(step)")]
+    done = [n for n, v in status_stores if n is not None and v in (A("Status(step + 1)"), A("Status(1 + step)"))]
+    procs = [n for n in g.stmts() if any(isinstance(c.func, ast.Attribute) and c.func.attr == "process" for c in node_calls(n))]
+    inner = [n for n in g.stmts() if any(unparse(c.func) == "self.process_class" for c in node_calls(n))]
+    uses_table = any(isinstance(c.func, ast.Attribute) and c.func.attr == "get" and unparse(c.func.value) == "self.processors" and c.args and unparse(c.args[0]) == "step" for c in calls_in(pc.node)) or any(
+        isinstance(x, ast.Subscript) and unparse(x.value) == "self.processors" and unparse(x.slice) == "step" for x in walk_no_nested(pc.node))
+    ok = len(start) == 1 and len(done) == 1 and bool(procs) and bool(inner) and uses_table \
+        and all(g.must_pass(g.entry, p.id, [start[0].id]) for p in procs + inner) and all(done[0].id in g.reachable([p.id]) and p.id not in g.reachable([done[0].id]) for p in procs + inner) \
+        and all(any(t in ("_.status<_", "_>_.status") for t in dep_texts(pc, n, True)) for n in inner) and g.must_pass(g.entry, g.exit, [done[0].id], normal_only=True)
+    ctx.ob("process_class marks the class in-progress, runs the step's processors, recurses into inner classes that are behind, then marks it done", ok, at=pc, construct="process_class", msg="status protocol changed")
     # every exported handler is instantiated exactly once in the container
     hm = ctx.repo.module("xsdata.codegen.handlers")
     allv = hm.globals.get("__all__")
